@@ -19,6 +19,118 @@
 
 #include "io.h"
 
+#ifdef SNAPRAID_VERIF
+/*
+ * Verification hook (C13): one trace line per atomic section of the slot ring.
+ *
+ * If the environment variable SNAPRAID_VERIF_TRACE is set, every event appends the line
+ * "<actor> <kind> <slot> <position>" to that file. If SNAPRAID_VERIF_YIELD=<seed> is set,
+ * the schedule is perturbed with sched_yield()/usleep() driven by a seeded generator.
+ * With both variables unset nothing happens.
+ */
+#include <sched.h>
+#include <pthread.h>
+
+#define VERIF_CALLER (-1)
+#define VERIF_READER(worker) ((int)((worker) - (worker)->io->reader_map))
+#define VERIF_WRITER(worker) (1000 + (int)((worker) - (worker)->io->writer_map))
+
+static pthread_mutex_t verif_io_mutex = PTHREAD_MUTEX_INITIALIZER;
+static int verif_io_mode = -1; /* -1 not initialized, 0 disabled, bit 0 trace, bit 1 yield */
+static int verif_io_fd = -1;
+static uint32_t verif_io_lcg;
+
+static int verif_io_setup(void)
+{
+	int mode;
+
+	pthread_mutex_lock(&verif_io_mutex);
+	if (verif_io_mode < 0) {
+		const char* trace = getenv("SNAPRAID_VERIF_TRACE");
+		const char* yield = getenv("SNAPRAID_VERIF_YIELD");
+
+		mode = 0;
+		if (trace && *trace) {
+			verif_io_fd = open(trace, O_WRONLY | O_CREAT | O_APPEND, 0600);
+			if (verif_io_fd >= 0)
+				mode |= 1;
+		}
+		if (yield && *yield) {
+			verif_io_lcg = (uint32_t)strtoul(yield, 0, 10) * 2654435761U + 12345U;
+			mode |= 2;
+		}
+		verif_io_mode = mode;
+	}
+	mode = verif_io_mode;
+	pthread_mutex_unlock(&verif_io_mutex);
+
+	return mode;
+}
+
+/**
+ * Emit an event. A null kind is a pure perturbation point.
+ * Actor is VERIF_CALLER, a reader number, or 1000 + a writer number.
+ */
+static void verif_io_event(int actor, const char* kind, unsigned slot, unsigned position)
+{
+	int mode = verif_io_mode;
+	uint32_t r = 0;
+
+	if (mode < 0)
+		mode = verif_io_setup();
+	if (mode == 0)
+		return;
+
+	pthread_mutex_lock(&verif_io_mutex);
+	if ((mode & 1) != 0 && kind != 0) {
+		char line[96];
+		int len;
+
+		if (actor == VERIF_CALLER)
+			len = snprintf(line, sizeof(line), "C %s %u %u\n", kind, slot, position);
+		else if (actor >= 1000)
+			len = snprintf(line, sizeof(line), "W%d %s %u %u\n", actor - 1000, kind, slot, position);
+		else
+			len = snprintf(line, sizeof(line), "R%d %s %u %u\n", actor, kind, slot, position);
+		if (len > 0 && write(verif_io_fd, line, len) != len) {
+			/* ignore, the reader of the trace detects a truncated line */
+		}
+	}
+	if ((mode & 2) != 0) {
+		verif_io_lcg = verif_io_lcg * 1664525U + 1013904223U;
+		r = verif_io_lcg;
+	}
+	pthread_mutex_unlock(&verif_io_mutex);
+
+	if ((mode & 2) != 0) {
+		switch ((r >> 16) & 7) {
+		case 0 :
+			sched_yield();
+			break;
+		case 1 :
+			usleep((r >> 20) % 200);
+			break;
+		}
+	}
+}
+
+/**
+ * Emit the parameters of a new ring session: slots, range, workers and enabled positions.
+ */
+static void verif_io_session(struct snapraid_io* io)
+{
+	block_off_t i;
+
+	verif_io_event(VERIF_CALLER, "start", io->io_max, io->block_max);
+	if (verif_io_mode <= 0 || (verif_io_mode & 1) == 0)
+		return;
+	verif_io_event(VERIF_CALLER, "workers", io->reader_max, io->writer_max);
+	for (i = io->block_start; i < io->block_max; ++i)
+		if (!io->block_enabled || bit_vect_test(io->block_enabled, i))
+			verif_io_event(VERIF_CALLER, "enabled", 0, i);
+}
+#endif
+
 void (*io_start)(struct snapraid_io* io,
 	block_off_t blockstart, block_off_t blockmax,
 	bit_vect_t* block_enabled) = 0;
@@ -296,6 +408,9 @@ static struct snapraid_task* io_reader_step(struct snapraid_worker* worker)
 		/* check if the worker has to exit */
 		/* even if there is work to do */
 		if (io->done) {
+#ifdef SNAPRAID_VERIF
+			verif_io_event(VERIF_READER(worker), "exit", worker->index, 0);
+#endif
 			thread_mutex_unlock(&io->io_mutex);
 			return 0;
 		}
@@ -316,6 +431,9 @@ static struct snapraid_task* io_reader_step(struct snapraid_worker* worker)
 			/* get the new working task */
 			worker->index = next_index;
 			task = &worker->task_map[worker->index];
+#ifdef SNAPRAID_VERIF
+			verif_io_event(VERIF_READER(worker), "take", worker->index, task->position);
+#endif
 
 			/* if the just completed task is at this index */
 			if (done_index == waiting_index) {
@@ -330,6 +448,9 @@ static struct snapraid_task* io_reader_step(struct snapraid_worker* worker)
 		}
 
 		/* otherwise wait for a read_sched event */
+#ifdef SNAPRAID_VERIF
+		verif_io_event(VERIF_READER(worker), "wait", worker->index, 0);
+#endif
 		thread_cond_wait(&io->read_sched, &io->io_mutex);
 	}
 }
@@ -371,6 +492,9 @@ static struct snapraid_task* io_writer_step(struct snapraid_worker* worker, int 
 			/* get the new working task */
 			worker->index = next_index;
 			task = &worker->task_map[worker->index];
+#ifdef SNAPRAID_VERIF
+			verif_io_event(VERIF_WRITER(worker), "take", worker->index, task->position);
+#endif
 
 			/* if the just completed task is at this index */
 			if (done_index == waiting_index) {
@@ -387,11 +511,17 @@ static struct snapraid_task* io_writer_step(struct snapraid_worker* worker, int 
 		/* check if the worker has to exit */
 		/* but only if there is no work to do */
 		if (io->done) {
+#ifdef SNAPRAID_VERIF
+			verif_io_event(VERIF_WRITER(worker), "exit", worker->index, 0);
+#endif
 			thread_mutex_unlock(&io->io_mutex);
 			return 0;
 		}
 
 		/* otherwise wait for a write_sched event */
+#ifdef SNAPRAID_VERIF
+		verif_io_event(VERIF_WRITER(worker), "wait", worker->index, 0);
+#endif
 		thread_cond_wait(&io->write_sched, &io->io_mutex);
 	}
 }
@@ -417,6 +547,9 @@ static block_off_t io_read_next_thread(struct snapraid_io* io, void*** buffer)
 	for (i = 0; i <= io->reader_max; ++i)
 		io->reader_list[i] = i;
 
+#ifdef SNAPRAID_VERIF
+	verif_io_event(VERIF_CALLER, 0, 0, 0);
+#endif
 	/* the synchronization is protected by the io mutex */
 	thread_mutex_lock(&io->io_mutex);
 
@@ -431,6 +564,9 @@ static block_off_t io_read_next_thread(struct snapraid_io* io, void*** buffer)
 
 	/* set the buffer to use */
 	*buffer = io->buffer_map[io->reader_index];
+#ifdef SNAPRAID_VERIF
+	verif_io_event(VERIF_CALLER, "read_next", io->reader_index, blockcur_caller);
+#endif
 
 	/* signal all the workers that there is a new pending task */
 	thread_cond_broadcast_and_unlock(&io->read_sched, &io->io_mutex);
@@ -456,6 +592,9 @@ static void io_write_next_thread(struct snapraid_io* io, block_off_t blockcur, i
 	for (i = 0; i <= io->writer_max; ++i)
 		io->writer_list[i] = i;
 
+#ifdef SNAPRAID_VERIF
+	verif_io_event(VERIF_CALLER, 0, 0, 0);
+#endif
 	/* the synchronization is protected by the io mutex */
 	thread_mutex_lock(&io->io_mutex);
 
@@ -475,6 +614,9 @@ static void io_write_next_thread(struct snapraid_io* io, block_off_t blockcur, i
 
 	/* at this point the writers must be in sync with the readers */
 	assert(io->writer_index == io->reader_index);
+#ifdef SNAPRAID_VERIF
+	verif_io_event(VERIF_CALLER, skip ? "write_skip" : "write_next", io->writer_index, blockcur);
+#endif
 
 	/* set the index to be used for the next write */
 	io->writer_index = (io->writer_index + 1) % io->io_max;
@@ -539,8 +681,14 @@ static struct snapraid_task* io_task_read_thread(struct snapraid_io* io, unsigne
 	/* clear the waiting indexes */
 	*waiting_mac = 0;
 
+#ifdef SNAPRAID_VERIF
+	verif_io_event(VERIF_CALLER, 0, 0, 0);
+#endif
 	/* the synchronization is protected by the io mutex */
 	thread_mutex_lock(&io->io_mutex);
+#ifdef SNAPRAID_VERIF
+	verif_io_event(VERIF_CALLER, "range", base, count);
+#endif
 
 	while (1) {
 		unsigned char* let;
@@ -577,6 +725,9 @@ static struct snapraid_task* io_task_read_thread(struct snapraid_io* io, unsigne
 					struct snapraid_task* task;
 
 					task = &worker->task_map[io->reader_index];
+#ifdef SNAPRAID_VERIF
+					verif_io_event((int)i, "collected", io->reader_index, task->position);
+#endif
 
 					thread_mutex_unlock(&io->io_mutex);
 
@@ -600,6 +751,9 @@ static struct snapraid_task* io_task_read_thread(struct snapraid_io* io, unsigne
 		}
 
 		/* if no worker is ready, wait for an event */
+#ifdef SNAPRAID_VERIF
+		verif_io_event(VERIF_CALLER, "read_wait", io->reader_index, 0);
+#endif
 		thread_cond_wait(&io->read_done, &io->io_mutex);
 
 		/* count the cycles */
@@ -627,6 +781,9 @@ static void io_parity_write_thread(struct snapraid_io* io, unsigned* pos, unsign
 	/* clear the waiting indexes */
 	*waiting_mac = 0;
 
+#ifdef SNAPRAID_VERIF
+	verif_io_event(VERIF_CALLER, 0, 0, 0);
+#endif
 	/* the synchronization is protected by the io mutex */
 	thread_mutex_lock(&io->io_mutex);
 
@@ -664,6 +821,9 @@ static void io_parity_write_thread(struct snapraid_io* io, unsigned* pos, unsign
 
 			/* if the worker has finished this index */
 			if (busy_index != worker->index) {
+#ifdef SNAPRAID_VERIF
+				verif_io_event(1000 + (int)i, "collected", io->writer_index, 0);
+#endif
 				thread_mutex_unlock(&io->io_mutex);
 
 				/* mark the worker as processed */
@@ -685,6 +845,9 @@ static void io_parity_write_thread(struct snapraid_io* io, unsigned* pos, unsign
 		}
 
 		/* if no worker is ready, wait for an event */
+#ifdef SNAPRAID_VERIF
+		verif_io_event(VERIF_CALLER, "write_wait", io->writer_index, 0);
+#endif
 		thread_cond_wait(&io->write_done, &io->io_mutex);
 
 		/* count the cycles */
@@ -694,6 +857,9 @@ static void io_parity_write_thread(struct snapraid_io* io, unsigned* pos, unsign
 
 static void io_reader_worker(struct snapraid_worker* worker, struct snapraid_task* task)
 {
+#ifdef SNAPRAID_VERIF
+	verif_io_event(VERIF_READER(worker), "begin", worker->index, task->position);
+#endif
 	/* if we reached the end */
 	if (task->position >= worker->io->block_max) {
 		/* complete a dummy task */
@@ -701,6 +867,9 @@ static void io_reader_worker(struct snapraid_worker* worker, struct snapraid_tas
 	} else {
 		worker->func(worker, task);
 	}
+#ifdef SNAPRAID_VERIF
+	verif_io_event(VERIF_READER(worker), "end", worker->index, task->position);
+#endif
 }
 
 static void* io_reader_thread(void* arg)
@@ -756,8 +925,14 @@ static void* io_writer_thread(void* arg)
 
 		assert(task->state == TASK_STATE_READY);
 
+#ifdef SNAPRAID_VERIF
+		verif_io_event(VERIF_WRITER(worker), "begin", worker->index, task->position);
+#endif
 		/* work on the assigned task */
 		worker->func(worker, task);
+#ifdef SNAPRAID_VERIF
+		verif_io_event(VERIF_WRITER(worker), "end", worker->index, task->position);
+#endif
 
 		/* save the resulting state */
 		latest_state = task->state;
@@ -792,6 +967,9 @@ static void io_start_thread(struct snapraid_io* io,
 	for (i = 0; i < IO_WRITER_ERROR_MAX; ++i)
 		io->writer_error[i] = 0;
 
+#ifdef SNAPRAID_VERIF
+	verif_io_session(io);
+#endif
 	/* setup the initial read pending tasks, except the latest one, */
 	/* the latest will be initialized at the fist io_read_next() call */
 	for (i = 0; i < io->io_max - 1; ++i) {
@@ -832,6 +1010,9 @@ static void io_stop_thread(struct snapraid_io* io)
 
 	/* mark that we are stopping */
 	io->done = 1;
+#ifdef SNAPRAID_VERIF
+	verif_io_event(VERIF_CALLER, "stop", 0, 0);
+#endif
 
 	/* signal all the threads to recognize the new state */
 	thread_cond_broadcast(&io->read_sched);
@@ -856,6 +1037,9 @@ static void io_stop_thread(struct snapraid_io* io)
 		/* wait for thread termination */
 		thread_join(worker->thread, &retval);
 	}
+#ifdef SNAPRAID_VERIF
+	verif_io_event(VERIF_CALLER, "join", 0, 0);
+#endif
 }
 
 #endif
